@@ -223,7 +223,9 @@ type CondGen struct {
 
 func (g *CondGen) newVal(v val.V) refmodel.Operand {
 	g.nv++
-	name := fmt.Sprintf(":v%d", g.nv)
+	// placeholder spellings: letters first, and what the SDK expression builders emit - a digit or an
+	// underscore right after the sigil (":0", ":_3")
+	name := fmt.Sprintf([]string{":v%d", ":v%d", ":%d", ":_%d", ":V%d"}[g.R.Intn(5)], g.nv)
 	if g.Values == nil {
 		g.Values = val.Item{}
 	}
@@ -236,6 +238,13 @@ func (g *CondGen) path() refmodel.Path {
 	p := refmodel.Path{{Name: name}}
 	if g.Alias && g.R.Intn(4) == 0 {
 		p[0].Alias = "#" + sanitize(name)
+		if g.R.Intn(3) == 0 {
+			// "#0", "#_a": digit- and underscore-first aliases (one spelling per attribute name)
+			p[0].Alias = fmt.Sprintf("#%d%s", len(name), sanitize(name))
+			if len(name)%2 == 0 {
+				p[0].Alias = "#_" + sanitize(name)
+			}
+		}
 	}
 	if !g.NoPaths && g.R.Intn(4) == 0 {
 		n := 1 + g.R.Intn(2)
